@@ -60,7 +60,7 @@ pub fn run(r: &mut Run) {
     let max_len = if r.is_thorough() { 60 } else { 25 };
     r.subcheck(
         "tm_histories",
-        r.cases(100_000, 2_000_000),
+        r.cases(100_000, 4_000_000),
         move || prop_oneof![7 => history_strategy(&LEVELS_SER, N_ENT, 6, max_len), 3 => history_strategy(&LEVELS_ALL, N_ENT, 6, max_len)],
         |ops: &Vec<Op>| {
             let rops = resolve(ops, MAX_TX);
